@@ -21,6 +21,7 @@ def mk(F, fps=30.0):
     conf[1::2, 0, 1] = 0                                                 # and a missing point in every odd frame
     from pose_format.numpy import NumPyPoseBody
     b = NumPyPoseBody(fps, data, conf)
+    b.data[2::3, 0, 0, 1] = np.ma.masked                                # and a mask of its own (a coordinate of an observed point masked after construction) in every third frame
     return b if be == "numpy" else (b.torch() if be == "torch" else b.tensorflow())
 def frames_of(body):
     """per frame: [first coordinate, confidence of point 0 (in 1/256), point 1 missing?] — the three things a frame carries"""
@@ -33,11 +34,12 @@ def frames_of(body):
         raw = np.asarray(t) if be == "tf" else t.numpy()
         miss = ~(np.asarray(m) if be == "tf" else m.numpy()).astype(bool)
         conf = np.asarray(body.confidence) if be == "tf" else body.confidence.numpy()
-    return [[int(raw[f, 0, 0, 0]), int(round(float(conf[f, 0, 0]) * 256)), int(bool(miss[f, 0, 1, 0]))] for f in range(raw.shape[0])]
+    return [[int(raw[f, 0, 0, 0]), int(round(float(conf[f, 0, 0]) * 256)), int(bool(miss[f, 0, 1, 0])), int(bool(miss[f, 0, 0, 1]))] for f in range(raw.shape[0])]
 for line in sys.stdin:
     if not line.strip(): continue
     c = json.loads(line)
     body = mk(c["F"], c.get("fps", 30.0))
+    source0 = frames_of(body)
     random.seed(c["seed"]); np.random.seed(c["seed"])
     if be == "tf":
         import tensorflow as tf
@@ -63,7 +65,7 @@ for line in sys.stdin:
             r, idx = getattr(body, c["call"])(*c["args"])
             idx = [int(x) for x in (np.asarray(idx) if be == "tf" else idx)]
             out = {"frames": frames_of(r), "indexes": idx, "fps": float(r.fps)}
-        out["source_after"] = frames_of(body)
+        out["source_after"] = frames_of(body); out["source"] = source0
     except Exception as e:
         out = {"error": type(e).__name__ + ": " + str(e)[:100]}
     sys.stdout.write(json.dumps(out) + "\n"); sys.stdout.flush()
@@ -131,7 +133,11 @@ def run(ctx):
             sig = {"backend": be, "call": c["call"]}
             if "error" in o:
                 ctx.violation("a frame operation raises", info, {"error": o["error"]}, True, size=F, signature=sig); continue
-            src = [[4 * f + 1, 128 + f, f % 2] for f in range(F)]           # per frame of the source: cell (f, 0, 0, 0), confidence of point 0 in 1/256, point 1 missing?
+            # per frame of the source: cell (f, 0, 0, 0), confidence of point 0 in 1/256, point 1 missing?, own mask on point 0's second coordinate? (the last as the
+            # backend's own conversion reports it: torch / tensorflow bodies derive their mask on conversion)
+            src = o.get("source") or []
+            if [x[:3] for x in src] != [[4 * f + 1, 128 + f, f % 2] for f in range(F)] or (be == "numpy" and [x[3] for x in src] != [int(f % 3 == 2) for f in range(F)]):
+                ctx.violation("the source body is not what was built", info, {"source": src[:6]}, True, size=F, signature=dict(sig, clause="built")); continue
             if o.get("source_after") != src or ("again" in o and o["again"] != o["frames"]):
                 ctx.violation("a frame operation changes the pose it is applied to, or gives another result the second time", info,
                               {"source_changed": o.get("source_after") != src}, True, size=F, signature=dict(sig, clause="source")); continue
